@@ -16,6 +16,7 @@
 -/
 import Aqv.Lemmas.TxPoolCount
 import Aqv.Lemmas.TxPricedLedger
+import Aqv.Lemmas.TxSortedMap
 namespace Aqv.Props.C15
 open Aqv.TxPool
 
@@ -624,5 +625,38 @@ theorem stales_reheap_exact (P : Priced) (all : List Tx) :
     intro x hx
     simp only [decide_not, Bool.not_eq_true', decide_eq_false_iff_not, Classical.not_not]
     exact (hInit_perm all).mem_iff.mp hx
+
+/-! ## the sorted-list cache of txSortedMap (`m.cache`, handed out by `Flatten` — i.e. by `Pending()`, `Content()`, the journal
+    rotation and every reset) as explicit state (Aqv.Model.TxSortedMap) -/
+
+/-- One method call (`Put Forward Filter Cap Remove Ready Flatten`, `Filter` with an arbitrary predicate) keeps the contents
+    nonce-sorted and the cache coherent: a cache that is present equals the nonce-sorted contents. -/
+theorem sortedmap_step_coherent (m : SMap) (op : SOp) (hs : Sorted m.items) (hc : m.Coherent) :
+    Sorted (m.step op).2.items ∧ (m.step op).2.Coherent := SMap.step_ok m op ⟨hs, hc⟩
+
+/-- **cached sorted list = sort of items after any op sequence**: after any sequence of method calls on a new map the cache,
+    if present, is the nonce-sorted contents; hence `Flatten` returns the nonce-sorted contents whether it hits the cache or
+    not, and does not change the contents. -/
+theorem sortedmap_cache_coherent (ops : List SOp) :
+    Sorted (SMap.empty.run ops).items ∧ (SMap.empty.run ops).Coherent ∧
+    ((SMap.empty.run ops).step .flatten).1 = (SMap.empty.run ops).items ∧
+    ((SMap.empty.run ops).step .flatten).2.items = (SMap.empty.run ops).items := by
+  have h := SMap.run_ok ops SMap.empty SMap.empty_ok
+  exact ⟨h.1, h.2, SMap.flatten_spec _ h.2⟩
+
+private def sTx (n p : Nat) : Tx := ⟨0, n, p, 21000, 0⟩
+
+/-- non-vacuity: a run in which the cache survives a Forward and a Cap (shifted front, cut back) and is still the contents -/
+example : (SMap.empty.run [.put (sTx 3 1), .put (sTx 1 1), .put (sTx 2 1), .put (sTx 5 1), .flatten, .forward 2, .cap 2]).cache
+    = some [sTx 2 1, sTx 3 1] := by decide
+
+/-- The `Put` of seeded change C15-8 (keep the cache and append when the new nonce is not below the cache's last nonce)
+    breaks coherence exactly in the scenario of the seed: flatten, then replace the highest nonce — the cache then lists the
+    replaced transaction next to its replacement. -/
+theorem c15_8_put_keeps_stale_cache_witness :
+    let m := SMap.empty.run [.put (sTx 0 10), .put (sTx 1 10), .flatten]
+    m.coherentB = true ∧ (m.putKeepCache (sTx 1 12)).coherentB = false ∧
+    (m.putKeepCache (sTx 1 12)).cache = some [sTx 0 10, sTx 1 10, sTx 1 12] ∧
+    (m.putKeepCache (sTx 1 12)).items = [sTx 0 10, sTx 1 12] := by decide
 
 end Aqv.Props.C15
